@@ -301,7 +301,7 @@ def main(prop: str, tier: str) -> int:
     # 3. code -> spec
     nrand = 500 if quick else 6000
     if prop == 'C17':
-        nrand = 900 if quick else 9000
+        nrand = 700 if quick else 9000
     for i in range(nrand):
         nsess = 2 if rng.random() < 0.7 else 3
         idle = prop == 'C16' or rng.random() < (0.5 if prop == 'C01' else 0.25)
@@ -345,7 +345,7 @@ def main(prop: str, tier: str) -> int:
     # pymap/backend/maildir/mailbox.py: every session has its own MailboxSet and learns of
     # the others through the directory; IDLE polls once a (virtual) second)
     if prop in ('C01', 'C02', 'C16', 'C17'):
-        nm = (150 if quick else 2000) if prop != 'C17' else (250 if quick else 3000)
+        nm = (150 if quick else 2000) if prop != 'C17' else (200 if quick else 3000)
         for i in range(nm):
             nsess = 2 if rng.random() < 0.7 else 3
             if prop == 'C16':
@@ -615,6 +615,14 @@ def pair_histories(run, rng, quick, traces, meta) -> None:
              ('move', False, '4,1', 'Box'), ('store', False, '3', '+', False, ('\\Answered',)),
              ('fetch', False, '3:4', False), ('search', False, '3:4')]
     hist += [((x, y, z), 'abb') for x in removers for y in holders for z in users]
+    # ... and b's sequence-number command is REFUSED (NO / BAD after the server has begun to
+    # hold EXPUNGEs back): the very next command, the NOOP of the probe, must tell everything
+    refused = [('search', False, 'NOT OR SEEN ' * 400 + 'SEEN'), ('search', False, '1:* CHARSET'),
+               ('fetch', False, '1:*', False, '(UID BODY[1.2.3.4.5.6.7.8.9.10.11.12.13.14.15.MIME])'),
+               ('store', False, '1:*', '+', False, ('\\Recent',)),
+               ('search', True, 'NOT OR SEEN ' * 400 + 'SEEN')]
+    hist += [((x, y), 'ab') for x in removers for y in refused]
+    hist += [((x, y, z), 'abb') for x in removers for y in refused[:2] for z in users[:3]]
     for h, who in hist:
         sr = SyncRun(init_flags=(('\\Deleted',), ('\\Deleted',), (), ()), sessions=['a', 'b', 'c'],
                      controlled=False, claim_recent=False)
@@ -665,9 +673,10 @@ def _lifecycle_part(run, rng, quick, traces, meta) -> None:
         run.machinery(f'RecentModel fails: {res.violated or res.error}')
         return
     paths = tlc.edge_cover(graph, max_len=8)
-    if quick and len(paths) > 1100:
+    cap = 1100 if quick else 15000
+    if len(paths) > cap:
         rng.shuffle(paths)
-        paths = paths[:1100]
+        paths = paths[:cap]
     run.notes['lifecycle'] = {'graph_nodes': len(graph.nodes), 'graph_edges': graph.n_edges,
                               'paths_replayed': len(paths)}
     for init, path in paths:
@@ -728,6 +737,9 @@ def _lifecycle_part(run, rng, quick, traces, meta) -> None:
             sr.close()
         traces.append(sr.events)
         meta.append({'kind': 'lifecycle', 'actions': [p[0] for p in path], 'commands': log})
+        if len(traces) % 25 == 0:
+            import gc
+            gc.collect()        # between histories only: what a finished history left in cycles
 
 
 def classify(prop, clause, events, line, detail='', backend='dict'):
